@@ -97,11 +97,11 @@ func (d *uriDecoder) Scan(ctx context.Context) (DecodedAmmo, error) {
 			if d.scanner.Err() == nil { // assume as io.EOF; FIXME: check possible nil error with other reason
 				d.line = 0
 				d.passNum++
-				if d.config.Passes != 0 && d.passNum >= d.config.Passes {
-					return nil, ErrPassLimit
-				}
 				if d.ammoNum == 0 {
 					return nil, ErrNoAmmo
+				}
+				if d.config.Passes != 0 && d.passNum >= d.config.Passes {
+					return nil, ErrPassLimit
 				}
 				d.Header = http.Header{}
 				_, err := d.file.Seek(0, io.SeekStart)
